@@ -197,6 +197,14 @@ impl LsmVerifier {
                 computed_discard += setsum;
                 ssts_to_remove.push(setsum);
             }
+            // NOTE:  A compaction can produce an output identical to one of its inputs, and a later
+            // edit can re-create a file an earlier one removed.  Such a file is live again; it
+            // must not be waited for in, or unlinked from, the trash on behalf of this fragment.
+            for added in edit.added() {
+                if let Some(setsum) = Setsum::from_hexdigest(added) {
+                    ssts_to_remove.retain(|s| *s != setsum);
+                }
+            }
             if !first {
                 if let Some(log_num) = edit.get_info('L') {
                     let log_num: u64 = log_num.parse().map_err(|_| {
